@@ -40,6 +40,8 @@ pub mod timing;
 pub mod trace_categories;
 pub mod traps;
 pub mod variables;
+#[cfg(brush_verif)]
+pub mod verif;
 mod wellknownvars;
 
 /// Re-export parser types used in core definitions.
